@@ -25,6 +25,9 @@ R8  a new element initialises its whole family: for every capacity family of C16
 R9  local heap arrays are read only where they were written: for every local pointer that only ever holds malloc-style
     blocks, a forward must-analysis collects the written indices (points: constants / globals / a counter after its loop =
     bound + 1; ranges: fill loops for i = a..b); every read with a decidable index must be inside them on every path.
+R10 element-initialising loops store before they load: for every array from malloc/realloc/allocate_array that a counter
+    loop of the same function fills, the first access to each field of the element of an iteration is a store on every path
+    from the top of the loop body (the load of a |= / += / ++ is a read of uninitialised memory).
 R5  the output location does not influence the content: env.use_stdout steers only the freopen decision in
     check_options() and one letter of the -v statistics on stderr.
 """
@@ -1369,6 +1372,114 @@ def r9(prog, rep, anchors=True):
     rep.note('C18.R9: local heap arrays with element reads: %s; %d reads with a data-dependent index not decided' % (', '.join(arrays_seen) or '-', skipped))
     return n
 
+# ================================================================ R10  element-initialising loops store before they load
+
+R10_ALLOCS = ('malloc', 'realloc', 'reallocarray', 'allocate_array', 'reallocate_array')
+
+def _simple_loops(prog, f, res):
+    """loops headed by a test of a local counter that is incremented by one inside: dicts ctr, H, entry (first body block), body"""
+    cfg = prog.cfg(f, cut=False); out = []
+    for H in f.blocks:
+        br = H.ins[-1]
+        be = branch_edges(f, br) if br.op == 'br' else None
+        if be is None: continue
+        ic, tl, fl = be
+        for side in (0, 1):
+            l0 = lin(f, ic.ops[side], res)
+            if l0 is None or len(l0) != 1 or list(l0.values()) != [1]: continue
+            ctr = next(iter(l0))
+            if ctr == 1 or ctr[0] != 'load' or ctr[1][0] != 'local': continue
+            for lab in (tl, fl):
+                body = {x.blk for x in cfg.reach_from_block(f.bmap[lab])} & {bb for bb in f.blocks if H in {y.blk for y in cfg.reach_from_block(bb)}}
+                if not body or H in body and len(body) == 1: continue
+                steps = [x for x in f.ins if x.op == 'store' and flow._freeze(res.loc(x.ops[1])) == ctr[1] and x.blk in body and x.blk is not H]
+                if steps and all(lin(f, x.ops[0], res) == {ctr: 1, 1: 1} for x in steps):
+                    out.append({'ctr': ctr, 'H': H, 'entry': f.bmap[lab], 'body': body - {H}}); break
+            break
+    return out
+
+def r10(prog, rep, anchors=True):
+    """for every array obtained from a non-zeroing allocator and filled by a counter loop of the same function: on every
+    path from the top of the loop body, the first access to each field of the element of that iteration is a store"""
+    n = 0; table = []
+    for f in fns(prog):
+        res = Resolver(f)
+        allocs = {}
+        for x in f.ins:
+            if x.op != 'store': continue
+            d = f.def_of(flow.strip_casts(f, x.ops[0]))
+            if d is not None and d.op == 'call' and d.callee in R10_ALLOCS: allocs.setdefault(flow._freeze(res.loc(x.ops[1])), []).append(x)
+        if not allocs: continue
+        cfg = prog.cfg(f); loops = None
+        for P, sts in sorted(allocs.items(), key=str):
+            loops = loops if loops is not None else _simple_loops(prog, f, res)
+            for L in loops:
+                if not any(cfg.dominates(a.blk, L['H']) for a in sts): continue
+                ctr = L['ctr']
+                def is_elem_ptr(v):
+                    g = f.def_of(flow.strip_casts(f, v))
+                    if g is None or g.op != 'getelementptr' or len(g.ops) != 2 or lin(f, g.ops[1], res) != {ctr: 1}: return False
+                    b = f.def_of(flow.strip_casts(f, g.ops[0]))
+                    return b is not None and b.op == 'load' and flow._freeze(res.loc(b.ops[0])) == P
+                eptrs = {flow._freeze(res.loc(x.ops[1])) for x in f.ins if x.op == 'store' and x.blk in L['body'] and res.loc(x.ops[1])[0] == 'local' and is_elem_ptr(x.ops[0])}
+                def field_of_access(ptr):
+                    """field path of an access to the element of this iteration, else None"""
+                    path = []; v = flow.strip_casts(f, ptr)
+                    for _ in range(6):
+                        if is_elem_ptr(v): return tuple(reversed(path)) or ('*',)
+                        d = f.def_of(v)
+                        if d is None: return None
+                        if d.op == 'load':
+                            return (tuple(reversed(path)) or ('*',)) if flow._freeze(res.loc(d.ops[0])) in eptrs else None
+                        if d.op == 'getelementptr' and len(d.ops) >= 3 and d.ops[1] == ('int', 0) and d.ops[2][0] == 'int':
+                            nm = f.mod.field_name(d.srcty, d.ops[2][1]) if d.srcty is not None else None
+                            path.append(nm or '#%d' % d.ops[2][1]); v = flow.strip_casts(f, d.ops[0]); continue
+                        return None
+                    return None
+                acc = {}
+                for x in f.ins:
+                    if x.blk in L['body'] and x.op in ('load', 'store'):
+                        k = field_of_access(x.ops[0] if x.op == 'load' else x.ops[1])
+                        if k is not None: acc[x] = k
+                if not any(x.op == 'store' for x in acc): continue          # not an initialising loop for this array
+                # must-analysis of the fields written since the top of the body
+                IN = {b: None for b in L['body']}; IN[L['entry']] = frozenset(); work = [L['entry']]; first_bad = {}
+                def run_block(b, st, record):
+                    st = set(st)
+                    for x in b.ins:
+                        k = acc.get(x)
+                        if k is None: continue
+                        if x.op == 'store': st.add(k)
+                        elif k not in st and record: first_bad.setdefault(k, x)
+                    return frozenset(st)
+                while work:
+                    b = work.pop(); st = run_block(b, IN[b], False)
+                    for t in cfg.succ[b]:
+                        if t not in L['body'] or t is L['entry']: continue
+                        if IN[t] is None: IN[t] = st; work.append(t)
+                        else:
+                            m = IN[t] & st
+                            if m != IN[t]: IN[t] = m; work.append(t)
+                for b in L['body']:
+                    if IN[b] is not None: run_block(b, IN[b], True)
+                pl = res.loc(sts[0].ops[1])
+                pname = pl[2] if pl[0] == 'field' else pl[1] if pl[0] in ('local', 'global') else ir.loc_str(pl).replace(' ', '')
+                fields = sorted({k for k in acc.values()})
+                table.append('%s:%s{%s}' % (f.name, pname, ','.join('.'.join(k) for k in fields)))
+                for k in fields:
+                    n += 1
+                    fld = '.'.join(k)
+                    kk = key('C18.R10', f, '%s[i].%s:read-before-write' % (pname, fld))
+                    if k in first_bad:
+                        x = first_bad[k]
+                        rep.fail('C18.R10', kk, where(x), '%s() fills the malloc\'ed array %s in a loop, but on some path from the top of the loop body the first access to %s of the new element is a load '
+                                 '(a read-modify-write such as |= counts): it reads whatever the heap held' % (f.name, pname, 'the element' if fld == '*' else 'field ' + fld),
+                                 replay_input='MALLOC_PERTURB_=255 flex -h / flex -t x.l: short options are not recognised')
+                    else:
+                        rep.ok('C18.R10', '%s: loop filling %s - %s is stored before it is read on every path' % (f.name, pname, 'the element' if fld == '*' else 'field ' + fld))
+    rep.note('C18.R10 arrays from non-zeroing allocators filled by a counter loop: ' + ' | '.join(table))
+    return n
+
 # ================================================================ controls / driver
 
 def controls(ctx):
@@ -1385,6 +1496,8 @@ def controls(ctx):
     expect_control(ctx, 'C18.R5', c, ['content_depends:effect-use_stdout'], must_hold=1)
     c = Collect(); r9(p, c, anchors=False)
     expect_control(ctx, 'C18.R9', c, ['bad_cap:acc['], must_hold=3)
+    c = Collect(); r10(p, c, anchors=False)
+    expect_control(ctx, 'C18.R10', c, ['bad_fill:items[i].flags:read-before-write', 'bad_fill_scalar:v[i].*:read-before-write'], must_hold=3)
     c = Collect(); r8(p, c, exempt={}, anchors=False)
     expect_control(ctx, 'C18.R8', c, ['new_item:item_c[n_items]', 'new_item:item_d[n_items]'], must_hold=3)
     c = Collect(); r7(p, c, anchors=False)
@@ -1403,6 +1516,7 @@ def run(ctx):
     c['R1'] = r1(prog, rep); c['R2'] = r2(prog, rep); c['R3'] = r3(prog, rep); c['R4'] = r4(prog, rep); c['R5'] = r5(prog, rep) + r5b(prog, rep); c['R6'] = r6(prog, rep); c['R7'], r7table = r7(prog, rep)
     c['R8'], r8table = r8(prog, rep)
     c['R9'] = r9(prog, rep)
+    c['R10'] = r10(prog, rep)
     rep.setcount('element_counter_families', len(r8table))
     rep.setcount('unions_with_members_of_different_size', len(r7table))
     rep.setcount('translation_units', len(prog.modules)); rep.setcount('functions_analysed', len(fns(prog)))
@@ -1412,6 +1526,7 @@ def run(ctx):
     rep.floor('C18.R3', 10, '3 bucket arrays: 7 uses in sym.c + 4 table-parameter uses in addsym/findsym')
     rep.floor('C18.R4', 24, '11 nxt[] loads in gentabs/genctbl/mkctbl, 16 chk[] stores, 2 chk allocations')
     rep.floor('C18.R5', 2, 'env.use_stdout is read in check_options() and flexend()')
+    rep.floor('C18.R10', 6, '8 (function, array, field) instances today: gentabs acc_array x2, ntod accset, scanopt_init aux x3, snstods dss[] and dfaacc[].dfaacc_set')
     rep.floor('C18.R9', 6, '8 reads of the local heap array acc_array in gentabs today (a cap read through a temporary makes it 7)')
     rep.floor('C18.R8', 28, '(creator, array) obligations today: mkstate 9, scinstal 5, cclinit 4, new_rule 4, snstods 8, sf_push 1, plus the exempted chk/nxt cursors')
     rep.floor('C18.R7', 3, 'loads of dfaacc_union.dfaacc_set in check_for_backing_up, snstods, gentabs')
